@@ -159,7 +159,8 @@ def gen_pyproject(rng):
         v = u.ver()
         k = rng.below(10)
         if k < 5:
-            s = rng.choice([">=" + v, "==" + v, "~=" + v, f">={v},<{int(v[0]) + 1}", "!=" + v, "<=" + v])
+            s = rng.choice([">=" + v, "==" + v, "~=" + v, f">={v},<{int(v[0]) + 1}", "!=" + v, "<=" + v,
+                            f">=0.0.1,!={v},!={int(v[0]) + 1}0.0.0", f">=0.0.1,>={v}"])      # (the same operator twice: the spec starts at its FIRST operator)
             req = n + s
             deps.append((sec, req, (n, s, None, s)))
         elif k < 6:
